@@ -694,6 +694,101 @@ fn list_case(rng: &mut Rng, obs: &mut Obs, fixed: Option<(Vec<ds::Horizontal>, B
     }
 }
 
+// ------------------------------------------------------------------------------------------
+// coverage-guided stage
+// ------------------------------------------------------------------------------------------
+
+/// Entry point of the libFuzzer target `c12_paragraph` (harness/vfuzz). Line 1 holds comma separated integers:
+/// \pretolerance, \tolerance, \linepenalty, \hyphenpenalty, \exhyphenpenalty, \looseness, emergency stretch, \leftskip
+/// width, \rightskip width and stretch, \clubpenalty, \widowpenalty, \interlinepenalty, \brokenpenalty, an indent, then one
+/// to three line widths (all dimensions in sp); the rest is a horizontal list in the Box language (parsed by the
+/// repository's own parser). The paragraph goes through `list_case` with a fixed list - the oracle of the generated
+/// list phase: the lines must reproduce the broken list (discardables after breaks, the chosen discretionary branches,
+/// \leftskip/\rightskip, inter-line penalties) and `break_line` must agree with the attempts it made.
+pub fn fuzz_one(data: &[u8], obs: &mut Obs) {
+    let Ok(text) = std::str::from_utf8(data) else {
+        return;
+    };
+    let Some((header, body)) = text.split_once('\n') else {
+        return;
+    };
+    let nums: Vec<i64> = header.split(',').map(|t| t.trim().parse::<i64>().unwrap_or(0)).collect();
+    let n = |i: usize, lo: i64, hi: i64, default: i64| -> i32 { nums.get(i).copied().unwrap_or(default).clamp(lo, hi) as i32 };
+    let Ok(list) = boxworks::lang::parse_horizontal_list(body) else {
+        return;
+    };
+    if list.is_empty() || list.len() > 60 {
+        return;
+    }
+    for (i, e) in list.iter().enumerate() {
+        if let ds::Horizontal::Discretionary(d) = e {
+            let r = d.replace_count as usize;
+            if (r > 0 && i + r >= list.len()) || list[i + 1..(i + 1 + r).min(list.len())].iter().any(|x| matches!(x, ds::Horizontal::Discretionary(_))) {
+                obs.skip("fuzz:discretionary-replaces-missing-nodes-or-another-discretionary");
+                return;
+            }
+        }
+    }
+    const P: i64 = 65536;
+    let mut kp = kp::Params::plain_tex_defaults();
+    kp.pre_tolerance = n(0, -1, 10000, 100);
+    kp.tolerance = n(1, -1, 10000, 200);
+    kp.line_penalty = n(2, -10000, 10000, 10);
+    kp.hyphen_penalty = n(3, -30000, 30000, 50);
+    kp.ex_hyphen_penalty = n(4, -30000, 30000, 50);
+    kp.looseness = n(5, -3, 3, 0);
+    kp.emergency_stretch = Scaled(n(6, 0, 20 * P, 0));
+    kp.left_skip = common::Glue { width: Scaled(n(7, 0, 20 * P, 0)), ..Default::default() };
+    kp.right_skip = common::Glue { width: Scaled(n(8, 0, 20 * P, 0)), stretch: Scaled(n(9, 0, 30 * P, 0)), ..Default::default() };
+    kp.club_penalty = n(10, -10000, 10000, 150);
+    kp.final_widow_penalty = n(11, -10000, 10000, 150);
+    kp.inter_line_penalty = n(12, -10000, 10000, 0);
+    kp.broken_penalty = n(13, -10000, 10000, 100);
+    let indent = n(14, 0, 20 * P, 0);
+    let mut widths: Vec<Scaled> = (15..18).filter(|i| nums.len() > *i).map(|i| Scaled(n(i, 15 * P, 300 * P, 100 * P))).collect();
+    if widths.is_empty() {
+        widths.push(Scaled((100 * P) as i32));
+    }
+    let bs = BreakSetup { kp, widths, indents: if indent > 0 { vec![Scaled(indent)] } else { vec![] }, prefix: vec![], hyphenation: false };
+    let mut rng = Rng::new(0);
+    list_case(&mut rng, obs, Some((list, bs)));
+}
+
+/// Seed corpus (generated lists of the list phase, printed in the Box language) and dictionary.
+pub fn fuzz_seeds() -> vcore::fuzzglue::Seeds {
+    use boxworks::lang::convert::ToBoxLang;
+    use std::fmt::Write;
+    let mut inputs = vec![];
+    for k in 0..200u64 {
+        let mut rng = Rng::new(0xC12 + k);
+        let list = gen::ListGen::new().list(&mut rng, 40);
+        let printed = catch(|| {
+            let mut s = String::new();
+            for e in list.clone().to_box_lang() {
+                let _ = write!(&mut s, "{e}");
+            }
+            s
+        });
+        let Ok(body) = printed else { continue };
+        let w = gen::widths(&mut rng, 15, 150);
+        let mut header = format!("100,{},10,50,50,0,0,{},0,{},150,150,0,100,{}", [200, 1000, 10000][(k % 3) as usize], (k % 4) * 3 * 65536, (k % 5) * 65536, (k % 2) * 5 * 65536);
+        for x in w.iter().take(3) {
+            header.push_str(&format!(",{}", x.0));
+        }
+        if body.len() <= 3500 {
+            inputs.push(format!("{header}\n{body}").into_bytes());
+        }
+    }
+    let dictionary = [
+        "glue(", "kern(", "penalty(", "chars(\"", "disc(", "pre_break=[", "post_break=[", "replace_count=", "hbox(", "math(", "font=", "plus", "minus", "fil", "fill",
+        "filll", "pt", "-10000", "10000", "9999", ",", ")", "\n", "0pt", "1sp", "lig(",
+    ]
+    .iter()
+    .map(|s| s.to_string())
+    .collect();
+    vcore::fuzzglue::Seeds { inputs, dictionary }
+}
+
 /// Exhaustive: every word of length 1..=3 over one representative per space-factor class, in the
 /// four zero/non-zero combinations of \spaceskip and \xspaceskip, followed by a space.
 const SF_ALPHABET: &[char] = &['a', 'A', '.', ',', ';', ':', ')', '!'];
